@@ -206,6 +206,10 @@ pub fn run(input: &str) {
                 let b: Vec<u8> = case["bytes"].as_array().unwrap().iter().map(|x| x.as_u64().unwrap() as u8).collect();
                 json!({"valid": is_str(&b)})
             }
+            "utf8_null" => {
+                // a NULL pointer with length 0 is how C and C++ (std::string_view()) spell the empty string
+                json!({"valid": unsafe { diplomat_is_str(core::ptr::null(), 0) }})
+            }
             "utf8_last" => {
                 let mut b: Vec<u8> = case["prefix"].as_array().unwrap().iter().map(|x| x.as_u64().unwrap() as u8).collect();
                 b.push(0);
